@@ -107,12 +107,17 @@ func C07(c *Ctx) {
 		"(keys) the record is written under key (msg.id, msg.Height) resp. (msg.id, stored LastTimestampId+1) — the same id and height that were compared; (A3/A4) the cursor is advanced to exactly that height/id on every success path; " +
 		"(A7) field fidelity of the stored record: each stored field originates from the like-named message field (block time for SubTime), and the point query reads through the same key layout with the request's id and height; " +
 		"(A2) a rejecting length comparison exists for every hash field. Decides these structural necessary conditions on every path; the inductive claim 'all stored heights <= Lastblock' is not decided."
-	r.Rules = []string{"A1.record-writers", "A2.record-guards", "A7.record-key", "A3.cursor-update", "A7.record-fields", "A7.point-query-key", "A2.size-checks", "A7.exported-cursor", "A12.decode-fresh"}
+	r.Rules = []string{"A1.record-writers", "A2.record-guards", "A7.record-key", "A3.cursor-update", "A7.record-fields", "A7.point-query-key", "A2.size-checks", "A7.exported-cursor", "A12.decode-fresh", "A3.element-carry", "A6.persistent-store"}
+	for _, m := range []string{"wrkchain", "beacon"} {
+		r.Floor("loops of "+m+" on record, import and export paths judged for locals carried between elements", elementCarry(c, m, []string{"MSG", "INITGEN", "EXPORTGEN"}), 3)
+	}
 	r.Trusted = []string{"KVStore Set/Get semantics", "baseapp calls ValidateBasic before dispatch"}
 	r.NotDecided = []string{"inductive invariant: every stored height <= Lastblock", "pruning order (C08)"}
 	// the cursor survives an export/import cycle unchanged (otherwise old heights become writable again)
 	exportCountersRule(c, "A7.exported-cursor", map[string]bool{"Lastblock": true, "LastTimestampId": true})
 	// what a query or an export returns is the stored record alone: no decode into a variable that still holds another record
+	// a record can be replaced by nobody: no other keeper writes into this module's key space
+	persistentStores(c)
 	decodeFresh(c, "wrkchain", "beacon")
 	for _, rm := range recMods {
 		isW := func(e ir.Effect) bool { return e.Kind == "StoreWrite" && e.Section == rm.SecRec }
@@ -369,7 +374,9 @@ func C09(c *Ctx) {
 	r.Explanation = "(A1) the id counter and the registration section are written only from the roots of the registration life-cycle; (A3) the register route reads the id from the counter section, stores the registration and the default limit, and stores counter := id + 1 on every success path; " +
 		"(A7) field fidelity of the registration literal: Moniker, Name, genesis hash / type come from the like-named message fields, Owner = str(addr(msg.Owner)), id = the counter value, cursor and counters zero, RegTime = block time, stored under the key of that id; " +
 		"(A4) every other writer of the registration section (the record step) re-stores the loaded registration with only the cursor/counter fields changed — never Owner, Moniker, Name, Genesis, Type, RegTime or the id; (A2) owner guards are those of C13/C07 with the id of the key written; (A7) genesis export hands the stored id counter (the next unused id) to the exported starting id, so an export/import cycle cannot re-issue an id. Uniqueness as an inductive property of the counter and uint64 wrap are not decided."
-	r.Rules = []string{"A1.registration-writers", "A3.id-counter", "A7.registration-fields", "A4.immutable-fields", "A7.exported-id-counter", "A12.decode-fresh"}
+	r.Rules = []string{"A1.registration-writers", "A3.id-counter", "A7.registration-fields", "A4.immutable-fields", "A7.exported-id-counter", "A12.decode-fresh", "A7.export-complete"}
+	// a registration keeps existing across a restart: the export lists every one of them (no page of a query helper)
+	exportNotPaginated(c, "wrkchain", "beacon")
 	exportGenesisArgs(c, "A7.exported-id-counter", true)
 	// a listing or an export hands back each registration as stored (no field inherited from the registration decoded before it)
 	decodeFresh(c, "wrkchain", "beacon")
@@ -474,8 +481,15 @@ func C08(c *Ctx) {
 		"(A2) in the purchase handler every state-changing step is guarded by the owner predicate (C13), by not(limit+number > params.MaxStorageLimit) and by the wrap check not(limit+number < limit), where limit is the stored limit of the registration named in the message; the stored new limit is exactly that checked sum, under the key of that id; " +
 		"(A9, sink-scoped) every uint64 +/- on message/state/param values in the functions reachable from the record and purchase handlers and the storage query is range-guarded by a dominating comparison (or is a ±1 counter step whose decrement is guarded by count > limit); " +
 		"(A3) in the record step the record write is followed by count+1, and a prune (delete) is always paired with count-1 and an update of the lowest/first marker, the decrement never occurring without a delete; (A7) the storage query reports the keeper's saturating remaining-capacity value. 'Exactly the newest min(total, limit) records' is inductive and not decided."
-	r.Rules = []string{"A1.limit-writers", "A2.purchase-guards", "A7.new-limit", "A9.uint64-range", "A3.prune-pairing", "A11.iter-end-bound", "A7.max-purchasable", "A3.lost-update", "A3.stale-element-pointer"}
+	r.Rules = []string{"A1.limit-writers", "A2.purchase-guards", "A7.new-limit", "A9.uint64-range", "A3.prune-pairing", "A11.iter-end-bound", "A7.max-purchasable", "A3.lost-update", "A3.stale-element-pointer", "A3.element-carry", "A7.export-counters", "A7.import-accepts-export", "A2.record-guards"}
 	lostUpdateControl(c)
+	// "the reported counters match what can actually be queried", across an export: the exported count and first-record
+	// marker are recomputed from the records that are exported (the export is capped), not copied from the stored counters
+	exportCountersRule(c, "A7.export-counters", map[string]bool{"NumBlocks": true, "LowestHeight": true, "NumInState": true, "FirstIdInState": true})
+	// ... and every exported limit is written back as exported (a BEACON "still on the default" keeps its own entry: the
+	// fallback of the getter is a compile-time constant, not the parameter)
+	importRejects(c, "wrkchain", "beacon")
+	r.Floor("state-changing steps of the WRKChain record handler behind the strict height test", recordsStrictlyHigher(c), 1)
 	r.Floor("functions of wrkchain scanned for dropped updates to record copies", lostUpdates(c, "wrkchain"), 20)
 	r.Floor("functions of beacon scanned for dropped updates to record copies", lostUpdates(c, "beacon"), 20)
 	r.Trusted = []string{"the ante max-slot check is only an early reject; the handler is the authority"}
@@ -1192,4 +1206,32 @@ func isRegID(c *Ctx, rm recMod, e *ir.Expr) bool {
 		e = ka[0]
 	}
 	return false
+}
+
+// recordsStrictlyHigher (A2.record-guards|strictly-higher): every state-changing step of the WRKChain record handler stands
+// behind msg.Height > stored Lastblock of that WRKChain. C07 states it for immutability; C08's retention ("the newest
+// min(total, limit) records", pruned one at a time from the lowest) rests on it as well: a height accepted below the last
+// one moves Lastblock back and makes the prune step delete a record newer than the one just stored.
+func recordsStrictlyHigher(c *Ctx) int {
+	w, r := c.W, c.R
+	n := 0
+	for _, rm := range recMods {
+		if rm.M != "wrkchain" {
+			continue
+		}
+		h := handlerOf(c, rm.M, rm.Record)
+		if h == nil {
+			r.Undecided("A2.record-guards", rm.M, "", "record handler found", "missing")
+			continue
+		}
+		strict := func(p ir.Pred) bool {
+			return cmpIs(p, ">", func(x *ir.Expr) bool { return isMsgField(x, "Height") }, func(y *ir.Expr) bool { return regField(c, rm, y, rm.Cursor) })
+		}
+		for i, s := range mutatingSites(c, h, isStateMutation) {
+			n++
+			k := fmt.Sprintf("%s|site%d:%s", rm.M, i, siteName(c, s))
+			r.Require(w.Guarded(h, s, strict, 3), "A2.record-guards", "strictly-higher|"+k, pos(c, s), "a WRKChain record is accepted only when msg.Height > stored Lastblock of msg.WrkchainId (strict)", "reachable without the strict comparison")
+		}
+	}
+	return n
 }
